@@ -469,6 +469,16 @@ func (e *Env) Do(op Op) Res {
 			np = append([]byte{}, m.Pub...)
 		case "bad":
 			np, _ = e.pass("bad")
+		case "fresh40", "fresh6":
+			// the longest / shortest legal passphrase
+			np = FreshPass(e.Rng)
+			for len(np) < 40 {
+				np = append(np, passAlphabet[e.Rng.Intn(len(passAlphabet))])
+			}
+			if op.NPC == "fresh6" {
+				np = np[:6]
+			}
+			npc = "fresh"
 		default:
 			np = FreshPass(e.Rng)
 			npc = "fresh"
